@@ -133,7 +133,8 @@ def run(ctx):
             nne += v["nNonEmpty"]
             nhm += v["nHiddenMatch"]
     # binding self-test: drop a matched file / add an unmatched one
-    good = [r for r in recs if r["outcome"] == "ok" and len([p for p in r["got1"] if p in r["tree"]]) >= 1]
+    badkeys = {(r["id"], r["pats"]) for r in bad}
+    good = [r for r in recs if (r["id"], r["pats"]) not in badkeys and r["outcome"] == "ok" and len([p for p in r["got1"] if p in r["tree"]]) >= 1]
     st = None
     if good:
         c = json.loads(json.dumps(good[0]))
